@@ -99,7 +99,7 @@ def check_tables(rec, st, sf, pdf, prop="C08", where=""):
         work = nt * nt * max(1, int(np.prod(rest))) * max(1, st["n_pts"])
         idxs = list(itertools.product(*[range(n) for n in rest]))
         if work > 3_000_000:
-            step = int(math.ceil(work / 3_000_000))
+            step = int(math.ceil(work / 1_000_000))
             idxs = idxs[::step]
             rec.count_info("survival_reference_label_combinations_sampled")
         for idx in idxs:
